@@ -364,7 +364,21 @@ def _pool(nworkers, jobs, runner):
         return list(ex.map(runner, jobs))
 
 
-def compile_batch(items, tag, chunk=60, per_item_ms=20000, pkg="mc_core", engine="compile-batch"):
+def compile_batch(items, tag, chunk=60, per_item_ms=20000, pkg="mc_core", engine="compile-batch", confirm_ms=300000):
+    """compile_batch_once + confirmation: an item reported as hang / abort (per-item wall cap on a
+    shared machine, a worker killed from outside) is compiled again alone with a generous cap, and
+    only a second death is believed.  Returns ({id: result}, workdir)."""
+    res, base = compile_batch_once(items, tag, chunk=chunk, per_item_ms=per_item_ms, pkg=pkg, engine=engine)
+    suspects = [it for it in items if res.get(it["id"], {}).get("status") in ("hang", "abort") or it["id"] not in res]
+    if suspects and confirm_ms:
+        again, _ = compile_batch_once(suspects, tag + "_confirm", chunk=1, per_item_ms=confirm_ms, pkg=pkg, engine=engine)
+        for it in suspects:
+            if it["id"] in again:
+                res[it["id"]] = again[it["id"]]
+    return res, base
+
+
+def compile_batch_once(items, tag, chunk=60, per_item_ms=20000, pkg="mc_core", engine="compile-batch"):
     """items: list of dicts for `mc_core compile-batch` (ids must be unique and file-name safe).
     Runs worker processes (1 thread each; a fresh process per chunk because the compiler leaks
     ~7 MB per compile).  A worker that dies marks the first item without a result as
@@ -424,6 +438,17 @@ def compile_batch(items, tag, chunk=60, per_item_ms=20000, pkg="mc_core", engine
 
 
 def py_run(items, tag, version="3.11", chunk=150, script_name="pyrun.py"):
+    """py_run_once + confirmation: a TIMEOUT (the runner's 10 s alarm, which an overloaded machine also
+    trips) is believed only if the program times out again, alone, with a 120 s budget."""
+    out = py_run_once(items, tag, version=version, chunk=chunk, script_name=script_name)
+    slow = [dict(it, timeout=120) for it in items if out.get(it["id"], {}).get("exc") == "TIMEOUT" and int(it.get("timeout", 10)) < 120]
+    if slow:
+        again = py_run_once(slow, tag + "_confirm", version=version, chunk=1, script_name=script_name)
+        out.update(again)
+    return out
+
+
+def py_run_once(items, tag, version="3.11", chunk=150, script_name="pyrun.py"):
     """items: [{'id', 'pyc'|'py'|'code', 'timeout'?}] run under the given interpreter; {id: outcome}."""
     base = os.path.join(BUILD, "pr", tag + "_" + version)
     shutil.rmtree(base, ignore_errors=True)
